@@ -123,6 +123,21 @@ def _ref_iter(ds, args):
 import torch
 def _T(d): return d.permute(list(range(d.dim()))[::-1])
 
+def _impl_default_to(ts, a):
+    r = ts[0].default_to(a[0])
+    if not (r.default == a[0] or (r.default != r.default and a[0] != a[0])):
+        raise AssertionError("default_to postcondition: the default of the result is %r, not %r" % (r.default, a[0]))
+    return r
+
+def _impl_dim_to_dense(ts, a):
+    from fggs.indices import PhysicalAxis, unitAxis
+    r = ts[0].dim_to_dense(a[0])
+    e = r.vaxes[a[0]]
+    others = set(id(k) for i, x in enumerate(r.vaxes) if i != a[0] for k in x.fv({}))
+    if not (e == unitAxis or (isinstance(e, PhysicalAxis) and id(e) not in others)):
+        raise AssertionError("dim_to_dense postcondition: dimension %d is not a dense independent axis" % a[0])
+    return r
+
 F = "float"; B = "bool"; A = "any"
 OPS = [
     # ---- unary maps and their in-place forms
@@ -203,8 +218,8 @@ OPS = [
     Op("clone", lambda ts, a: ts[0].clone(), lambda ds, a: ds[0].clone(), kind=A, nan_default=True),
     Op("detach", lambda ts, a: ts[0].detach(), lambda ds, a: ds[0].detach(), kind=A, nan_default=True),
     Op("freshen", lambda ts, a: ts[0].freshen(), lambda ds, a: ds[0], kind=A, nan_default=True),
-    Op("default_to", lambda ts, a: ts[0].default_to(a[0]), lambda ds, a: ds[0], gen=_g_default, nan_default=True),
-    Op("dim_to_dense", lambda ts, a: ts[0].dim_to_dense(a[0]), lambda ds, a: ds[0], kind=A, gen=_g_dim, nan_default=True, weight=2),
+    Op("default_to", _impl_default_to, lambda ds, a: ds[0], gen=_g_default, nan_default=True),
+    Op("dim_to_dense", _impl_dim_to_dense, lambda ds, a: ds[0], kind=A, gen=_g_dim, nan_default=True, weight=2),
     Op("reshape", lambda ts, a: ts[0].reshape(a[0]) , lambda ds, a: ds[0].reshape(a[0]), kind=A, gen=_g_reshape, may_raise=(RuntimeError,), nan_default=True, weight=2),
     Op("reshape_star", lambda ts, a: ts[0].reshape(*a[0]), lambda ds, a: ds[0].reshape(*a[0]), kind=A, gen=_g_reshape, may_raise=(RuntimeError,)),
     Op("view", lambda ts, a: ts[0].view(a[0]), lambda ds, a: ds[0].reshape(a[0]), kind=A, gen=_g_reshape, may_raise=(RuntimeError,)),
@@ -488,11 +503,14 @@ def wire_case2(case, out):
 
 # ---------------------------------------------------------------------------- special operations
 def special_copy_(rng, mon):
-    dst, _ = U.gen_tensor(rng, kind=rng.choice(["float", "bool"]))
-    same_size = rng.random() < 0.5
-    src, _ = U.gen_tensor(rng, kind=("bool" if dst["dtype"] == "bool" else "float") if same_size else rng.choice(["float", "bool"]),
-                          types=dst["types"] if same_size else None, dtype=dst["dtype"] if (same_size and dst["dtype"] != "bool") else None,
-                          pool=U.Pool(40))
+    same_size = rng.random() < 0.6
+    dst, _ = U.gen_tensor(rng, kind=rng.choice(["float", "bool"]), **(dict(p_phys=0.8) if same_size else {}))
+    same_kind = rng.random() < 0.7          # otherwise: equal element counts but another dtype (no storage re-use)
+    dkind = "bool" if dst["dtype"] == "bool" else "float"
+    skind = (dkind if same_kind else ("float" if dkind == "bool" else "bool")) if same_size else rng.choice(["float", "bool"])
+    src, _ = U.gen_tensor(rng, kind=skind, types=dst["types"] if same_size else None,
+                          dtype=dst["dtype"] if (same_size and same_kind and dst["dtype"] != "bool") else None,
+                          pool=U.Pool(40), **(dict(p_phys=0.8) if same_size else {}))
     case = dict(op="copy_", args=[], operands=[dst, src])
     w = U.World()
     d = U.build_tensor(dst, w); s = U.build_tensor(src, w)
@@ -625,6 +643,18 @@ def gen_case(op, rng, types, pat=None):
         if args is None:
             if pat is not None: return None
             continue
+        if op.name == "any" and rng.random() < 0.6:
+            sp = specs[0]
+            sp["values"] = [rng.random() < 0.08 for _ in sp["values"]]
+            if rng.random() < 0.6: sp["default"] = True
+        if op.name == "dim_to_dense" and pat is None and rng.random() < 0.4 and len(specs[0]["vaxes"]) >= 2:
+            # the dimension to densify is a physical axis shared with another dimension (a diagonal)
+            sp = specs[0]; d = args[0]
+            cand = [i for i, e in enumerate(sp["vaxes"]) if i != d and e[0] == "Phys" and U.a_numel(e) == U.a_numel(sp["vaxes"][d])]
+            if cand:
+                sp["vaxes"] = list(sp["vaxes"]); sp["vaxes"][d] = sp["vaxes"][cand[0]]
+                sp["paxes"] = U.fv_list(sp["vaxes"]); n = math.prod(k for _, k in sp["paxes"])
+                sp["values"] = U.gen_values(n, rng, "bool" if sp["dtype"] == "bool" else "float")
         return dict(op=op.name, args=args, operands=specs)
     return None
 
